@@ -3,6 +3,7 @@ package main
 import (
 	"fmt"
 	"math/rand"
+	"time"
 )
 
 // `harness gen witness …` is not a stream: it prints the short witness op lines that
@@ -38,4 +39,83 @@ func init() {
 		tmpl("template_leading_zero_ref", "*", "$01", "foo")
 		tmpl("literal_star_component", "a.*.*", "$1-$2", "a.*.y")
 	}})
+}
+
+func init() {
+	prev := components["witness"].Gen
+	components["witness"].Gen = func(r *rand.Rand, tier string, emit Emit) {
+		prev(r, tier, emit)
+		pipe := func(id string, cfg *rawCfg, pres []preFam, lines ...string) {
+			h := &pipeHist{flags: "1111", pres: pres}
+			h.load(cfg)
+			for _, l := range lines {
+				if l == "@scrape" {
+					h.scrape()
+				} else {
+					h.line(l)
+				}
+			}
+			h.scrape()
+			fmt.Printf("%s\t%s\n", id, h.op())
+		}
+		hist := rawRule{match: "hist.*", name: "$1", obs: sp("histogram"), mmt: sp("observer")}
+		pipe("help_mismatch", &rawCfg{rules: []rawRule{{match: "h1", name: "hh", help: "help one"}, {match: "h2", name: "hh", help: "help two"}}}, nil, "h1:1|c", "h2:1|c|#t:v")
+		pipe("observer_companion_unchecked", &rawCfg{}, nil, "x:1|ms", "x_sum:1|ms")
+		pipe("observer_companion_unchecked_hist", &rawCfg{rules: []rawRule{hist}}, nil, "hist.x_bucket:1|h", "hist.x:1|h")
+		pipe("preregistered_name_collision", &rawCfg{}, []preFam{{"statsd_exporter_events_total", "c", "The total number of StatsD events seen."}}, "statsd_exporter_events_total:1|c")
+		pipe("counter_uint64_wrap", &rawCfg{}, nil, "c:1e19|c", "@scrape", "c:1e19|c")
+		pipe("sampling_multiplicity_unbounded", &rawCfg{}, nil, "x:1|ms|@0.0001")
+		b := []float64{1, 0.5}
+		pb := &b
+		pipe("loader_accepts_unsorted_buckets", &rawCfg{rules: []rawRule{{match: "t.*", name: "m", obs: sp("histogram"), ho: &pb}}}, nil, "t.a:1|ms")
+		pipe("loader_accepts_negative_max_age", &rawCfg{maxAge: -1000000000}, nil, "t.a:1|ms")
+		pipe("loader_accepts_tiny_max_age", &rawCfg{maxAge: 4}, nil, "t.a:1|ms")
+		q := []quant{{1.5, 0.1}}
+		pipe("loader_accepts_bad_quantile", &rawCfg{quantiles: q}, nil, "t.a:1|ms")
+	}
+}
+
+func init() {
+	prev := components["witness"].Gen
+	components["witness"].Gen = func(r *rand.Rand, tier string, emit Emit) {
+		prev(r, tier, emit)
+		pipe := func(id string, cfg *rawCfg, f func(h *pipeHist)) {
+			h := &pipeHist{flags: "1111"}
+			h.load(cfg)
+			f(h)
+			h.scrape()
+			fmt.Printf("%s\t%s\n", id, h.op())
+		}
+		lines := func(ls ...string) func(h *pipeHist) {
+			return func(h *pipeHist) {
+				for _, l := range ls {
+					h.line(l)
+				}
+			}
+		}
+		hist := rawRule{match: "hist.*", name: "$1", obs: sp("histogram"), mmt: sp("observer")}
+		pipe("fixed_signalfx_brackets", &rawCfg{}, lines("a]b[:1|c", "ok:1|c"))
+		pipe("fixed_reserved_label_quantile", &rawCfg{}, lines("foo:1|ms|#quantile:0.5", "ok:1|c"))
+		pipe("fixed_reserved_label_le", &rawCfg{rules: []rawRule{hist}}, lines("hist.foo:1|ms|#le:0.5", "ok:1|c"))
+		pipe("fixed_reserved_label_prefix", &rawCfg{}, lines("foo:1|c|#__x:1", "ok:1|c"))
+		pipe("fixed_empty_metric_name", &rawCfg{}, lines(",a=b:1|c", "[a=b]:1|c", "ok:1|c"))
+		pipe("fixed_label_leak", &rawCfg{rules: []rawRule{{match: "a.b", name: "a_b", mmt: sp("counter"), labels: [][2]string{{"rule", "one"}}}}}, lines("a.b:1|c:2|g"))
+		pipe("fixed_counter_nan", &rawCfg{}, lines("foo:NaN|c", "bar:inf|c|@inf", "baz:1|c|@nan", "foo:1|c"))
+		mk := func(ttl time.Duration) *rawCfg {
+			return &rawCfg{rules: []rawRule{{match: "a.*", name: "a_$1", ttl: int64(ttl)}}}
+		}
+		pipe("fixed_ttl_not_refreshed", mk(100*time.Second), func(h *pipeHist) {
+			h.line("a.x:1|c")
+			h.load(mk(time.Second))
+			h.adv(time.Second)
+			h.line("a.x:1|c")
+			h.adv(9 * time.Second)
+			h.sweep()
+		})
+		pipe("fixed_expiry_leak", &rawCfg{ttl: int64(time.Second), rules: []rawRule{{match: "a.b", name: "a_b", mmt: sp("gauge"), labels: [][2]string{{"rule", "one"}}}}}, func(h *pipeHist) {
+			h.line("a.b#t=v:1|c:2|g")
+			h.adv(3 * time.Second)
+			h.sweep()
+		})
+	}
 }
